@@ -1345,7 +1345,7 @@ def cage_molecules(ctx):
             out.append((s, m))
     for k in (3, 4, 5, 6):
         out.append((f'[{k}]prismane', molgen.from_edges(prismane_edges(k))))
-    for i in range(30 if ctx.quick else 400):
+    for i in range(30 if ctx.quick else 200):
         try:
             e, els, ords = random_cage(rng)
             out.append((f'cage{i}', molgen.from_edges(e, els, ords)))
@@ -1358,7 +1358,7 @@ def cage_molecules(ctx):
                 out.append((f'assembly{i}', m))
         except Exception:
             continue
-    for name, m in rng.sample(out, min(len(out), 20 if ctx.quick else 150)):
+    for name, m in rng.sample(out, min(len(out), 20 if ctx.quick else 80)):
         try:
             r, _ = molgen.renumber(rng, m)
             out.append((name + '/renum', r))
@@ -1734,7 +1734,7 @@ def embed_cases(ctx):
         for name, m in (cages if not ctx.quick else cages[:len(CAGE_SMILES) + 4] + rng.sample(cages, 12)):
             out.append((t, name, m))
     for name, m in cages:
-        for k in range(4 if ctx.quick else 12):
+        for k in range(4 if ctx.quick else 8):
             try:
                 t = cut_pattern_text(rng, m, rng.randint(3, min(8, len(m))), drop=(k % 3 == 2))
             except Exception as e:           # a generator problem must be visible, not silently thin the stream
@@ -1745,7 +1745,7 @@ def embed_cases(ctx):
     # ordinary molecules (corpus, handmade, decorated graphs: aromatic bonds, charges, heteroatoms, multiple bonds, several
     # components): patterns cut from them, searched in their source and in another molecule
     pool = [(n, m) for n, m in molecules(ctx) if 4 <= len(m) <= 40 and not any(b.order == 8 for _, _, b in m.bonds())]
-    for name, m in rng.sample(pool, min(len(pool), 90 if ctx.quick else 900)):
+    for name, m in rng.sample(pool, min(len(pool), 90 if ctx.quick else 500)):
         for k in range(2):
             try:
                 t = cut_pattern_text(rng, m, rng.randint(3, min(9, len(m))), drop=(k == 1 and rng.random() < 0.5))
@@ -2648,7 +2648,7 @@ def search(ctx):
         except Exception as e:
             ctx.notes.append(f'search on a disagreeing case raised {type(e).__name__}: {e}')
     # 2a'. whole patterns (ring closures, branches) on cage targets, both paths — own share of the budget
-    embed_search(ctx, min(t_end, time.time() + (25 if ctx.quick else 120)), seeds)
+    embed_search(ctx, min(t_end, time.time() + (25 if ctx.quick else 60)), seeds)
     # 2. matching: documented single-atom patterns on small molecules vs the independent attribute computation
     mols = [(n, m) for n, m in molecules(ctx) if len(m) <= 30]
     pats = list(dict.fromkeys([t for t in texts if t.count('[') == 1] + [t for t, r in primitive_queries(ctx) if not r]))
